@@ -43,10 +43,23 @@ func extractContrib(c *Ctx, fname string, withPoly bool) *contribTable {
 	if !loopFree(f) {
 		fatalf("%s is no longer loop-free: decision-table extraction is undecided", fname)
 	}
-	if len(f.Params) != 2 {
-		fatalf("%s: expected receiver and one *Active parameter", fname)
+	// the edge is the *Active parameter; fill rule and clip type come from the receiver's fields, or — when the
+	// method has been turned into a plain function — from parameters of those names
+	recv, ae := "", ""
+	for _, p := range f.Params {
+		switch typeName(p.Type()) {
+		case "*Active":
+			ae = p.Name()
+		case "*clipperBase":
+			recv = p.Name()
+		}
 	}
-	recv, ae := f.Params[0].Name(), f.Params[1].Name()
+	if ae == "" {
+		fatalf("%s: no *Active parameter", fname)
+	}
+	if recv == "" {
+		recv = "c"
+	}
 	K := maxIntConst(f)
 	if K > 8 {
 		fatalf("%s compares with constant %d: representative range must be revisited", fname, K)
@@ -67,6 +80,8 @@ func extractContrib(c *Ctx, fname string, withPoly bool) *contribTable {
 		return map[string]absVal{
 			recv + ".fillRule":        intVal(cell.fr),
 			recv + ".clipType":        intVal(cell.ct),
+			"fillRule":                intVal(cell.fr),
+			"clipType":                intVal(cell.ct),
 			ae + ".windCount":         intVal(cell.wc),
 			ae + ".windCount2":        intVal(cell.wc2),
 			"getPolyType(" + ae + ")": intVal(cell.pt),
